@@ -368,13 +368,19 @@ pub fn cases(args: &Args) -> Vec<Case> {
     }
     // the configuration-order case: preserve_code_transform(false) after generate_dwarf(true)
     for n in [1usize, 3] {
-        let wasm = wgen::families::build_leb_x(n, 0, 8, true, false);
-        out.push(Case {
-            family: "dwarf".into(),
-            coords: format!("n={},big=0,size=8,nops=true", n),
-            wasm,
-            cfg: json!({"version": 4, "file_index": 0, "one_sequence": false, "low_pc": "body", "edit": "none", "reset_preserve_ct_after": true}),
-        });
+        for size in [8usize, 24, 130] {
+            for locals_mode in [0u8, 1, 2] {
+                for edit in ["none", "insert", "gc"] {
+                    let wasm = wgen::families::build_leb_full(n, 0, size, true, edit == "gc", 0, locals_mode);
+                    out.push(Case {
+                        family: "dwarf".into(),
+                        coords: format!("n={},big=0,size={},nops=true,locals={}", n, size, locals_mode),
+                        wasm,
+                        cfg: json!({"version": 4, "file_index": 0, "one_sequence": false, "low_pc": "body", "edit": edit, "reset_preserve_ct_after": true}),
+                    });
+                }
+            }
+        }
     }
     out
 }
